@@ -23,7 +23,7 @@ RULE = ("random include trees cut out of generated documents at line boundaries:
 EVAL_KEY = "loads_judged"
 DISTINCT_KEY = "cases"
 NSHARDS = {"quick": 8, "thorough": 16}
-FLOORS = {"quick": {"loads_judged": 400, "open_event_checks": 300, "depth_boundary_cases": 50, "no_expand_cases": 80, "missing_file_cases": 25},
+FLOORS = {"quick": {"loads_judged": 400, "open_event_checks": 200, "depth_boundary_cases": 50, "no_expand_cases": 80, "missing_file_cases": 25},
           "thorough": {"loads_judged": 20000, "open_event_checks": 15000, "depth_boundary_cases": 2000, "no_expand_cases": 3000,
                        "missing_file_cases": 1000}}
 ASSUMPTIONS = ["flatten() substitutes over the generator's own tree (it never re-scans text)", "audit 'open' events are complete for builtins.open / io.open"]
@@ -118,8 +118,41 @@ def flatten(f):
     return out
 
 
-def max_depth(f):
-    return max([f.depth] + [max_depth(e.target) for e in f.entries if isinstance(e, Inc)])
+def max_depth(f, d=0):
+    """Deepest nesting reached below f when f itself sits at depth d (a file included twice counts at each place)."""
+    return max([d] + [max_depth(e.target, d + 1) for e in f.entries if isinstance(e, Inc)])
+
+
+def height(f):
+    return max_depth(f, 0)
+
+
+def dfs(f, d=0, out=None):
+    out = [] if out is None else out
+    out.append((f, d))
+    for e in f.entries:
+        if isinstance(e, Inc):
+            dfs(e.target, d + 1, out)
+    return out
+
+
+def make_dag(r, root):
+    """Include an already used file a second time somewhere else (same file at two depths).  Returns a description or None."""
+    occ = dfs(root)
+    cands = [(f, d) for f, d in occ if d >= 1 and height(f) >= 1]
+    if not cands:
+        return None
+    x, dx = r.choice(cands)
+    hx = height(x)
+    below_x = {id(f) for f, _ in dfs(x)}
+    hosts = [(f, d) for f, d in occ if id(f) not in below_x and f is not root and d >= 1]
+    if not hosts:
+        return None
+    # prefer a host that pushes the second occurrence over the limit
+    deep = [(f, d) for f, d in hosts if d + 1 + hx > 5]
+    host, dh = r.choice(deep) if deep and r.random() < 0.7 else r.choice(hosts)
+    host.entries.insert(r.randint(0, len(host.entries)), Inc(x, rand_style(r)))
+    return {"file": x.rel, "first_depth": dx, "second_depth": dh + 1, "height_below": hx}
 
 
 def write_tree(root, rootdir, files):
@@ -186,6 +219,12 @@ def _run(ctx, base):
         rootdir = os.path.join(base, f"t{ctx.shard}_{j}", r.choice(["", "maps", "a/b"]))
         os.makedirs(rootdir, exist_ok=True)
         files = [f for f in tg.files if f is not inner]
+        dag = None
+        if D >= 2 and r.random() < 0.35:
+            dag = make_dag(r, root)
+            if dag:
+                res.count("dag_cases")
+                res.seen("dag-kinds", f"first@{dag['first_depth']} second@{dag['second_depth']} height={dag['height_below']}")
         write_tree(root, rootdir, files)
         depth = max_depth(root)
         ninc = len(files) - 1
@@ -198,12 +237,14 @@ def _run(ctx, base):
             want = core.plain(eng.loads(flat))
         except Exception as ex:
             res.count("flattened-text-not-accepted:" + type(ex).__name__)
-            continue
+            if depth <= 5:
+                continue
+            want = None  # too deep anyway: only the refusal is judged
         for via in ("open", "load", "loads"):
             os.chdir(rootdir if via == "loads" else r.choice(cwds))
             if via == "loads" and any(e.style["abs"] is False for f in files for e in f.entries if isinstance(e, Inc)) is None:
                 pass
-            case = {"via": via, "depth": depth, "includes": ninc, "root": root_path, "flat": flat[:4000],
+            case = {"via": via, "depth": depth, "includes": ninc, "root": root_path, "flat": flat[:4000], "dag": dag,
                     "files": {f.rel: (f.eol.join(e.line(rootdir) if isinstance(e, Inc) else e for e in f.entries))[:1500] for f in files[:12]}}
             res.count("loads_judged")
             res.seen("cases", h(depth, ninc, styles, via))
@@ -250,7 +291,7 @@ def _run(ctx, base):
             exp = expected_opens(root, rootdir, [os.path.abspath(root_path)] if via in ("open",) else [])
             if via == "load":
                 exp = expected_opens(root, rootdir, [os.path.abspath(root_path)])
-            if sorted(reads) != sorted(exp):
+            if set(reads) != set(exp):
                 res.violation("files-opened-differ-from-tree", case, {"opened": sorted(set(reads) - set(exp))[:5],
                                                                        "not_opened": sorted(set(exp) - set(reads))[:5],
                                                                        "counts": [len(reads), len(exp)]}, None)
